@@ -24,5 +24,5 @@ NextHist == EditMin \/ Tpc \/ AbortPath \/ Other \/ UndoAll \/ (\E T \in 1..MaxT
 NextHistNoPack == EditMin \/ Tpc \/ AbortPath \/ Other \/ UndoAll
 \* foreign calls at every phase, the second writer's late bookkeeping at every point of a commit of c1, a failing
 \* blob copy in undo - with the smallest edits
-NextRace == EditMin \/ Tpc \/ AbortPath \/ UndoAll \/ WrongSome \/ Race
+NextRace == EditMin \/ Tpc \/ AbortPath \/ UndoAll \/ WrongSome \/ Race \/ StoreFault \/ PackDuringSome \/ Other
 =============================================================================
